@@ -452,6 +452,10 @@ impl<F: Flavor> Sys<F> {
                 out.v("C08", "dropped-twice", format!("value {} was dropped {} times", t, d));
             } else if d == 1 && !self.explained[t as usize] {
                 out.v("C08", "silently-discarded", format!("value {} was dropped inside the channel during {:?} although it was neither received nor handed back", t, op));
+                if matches!(op, Op::Close(_)) {
+                    // "after [close] ... receivers still get all values accepted before the close"
+                    out.v("C11", "close-discarded-value", format!("{:?} dropped value {}, which had been accepted before the close and not been received", op, t));
+                }
                 self.explained[t as usize] = true;
                 self.inflight.retain(|e| e.tag != t);
             }
